@@ -14,6 +14,7 @@ META = dict(
     level_note="Trusted: Coq kernel + vm_compute; the hand-written model is tied by differential testing on generated polygons "
                "(integer grid; curved segments: judged against the spec on a fine flattening), not by a proof about Go source. "
                "Vertex-level rays and horizontal edges are covered by the differential run only.",
+    coq_targets=["theories/Corr/C06.vo"],
     harness=["c06"],
 )
 
